@@ -292,8 +292,35 @@ func (c *Ctx) checkForwarderSSA(rule string, sp fwdSpec) fwdResultSSA {
 							if ex, isEx := lv.(*ssa.Extract); isEx {
 								lv = ex.Tuple
 							}
-							for _, ci := range calls {
-								if v, isV := ci.(ssa.Value); isV && lv == v {
+							isCallRes := func(lv ssa.Value) bool {
+								lv = canon(lv)
+								if ex, isEx := lv.(*ssa.Extract); isEx {
+									lv = ex.Tuple
+								}
+								for _, ci := range calls {
+									if v, isV := ci.(ssa.Value); isV && lv == v {
+										return true
+									}
+								}
+								return false
+							}
+							if isCallRes(lv) {
+								dep = true
+							}
+							// `for ...; err == nil; ...`: the loop-carried error, nil on entry and the
+							// child's answer on every way round
+							if phi, isPhi := lv.(*ssa.Phi); isPhi && phi.Block() == lp.Header {
+								all := true
+								for i, e := range phi.Edges {
+									if lp.Blocks[phi.Block().Preds[i]] {
+										if !isCallRes(e) {
+											all = false
+										}
+									} else if !isNilConst(e) {
+										all = false
+									}
+								}
+								if all {
 									dep = true
 								}
 							}
